@@ -1,7 +1,6 @@
 import Blf.FileSeq
 import Blf.Codec.Pre
 import Blf.Codec.Sticky
-import Blf.Gen.Exact
 /-!
 # From objects to the stream and back: the object parser on a stream of encodings  (C01, stream level)
 
@@ -63,6 +62,18 @@ theorem syncRd_at (cfg : Cfg) (hs : cfg.sticky = false) (L : List Item) (sigF : 
     omega
   · rw [hrd.obj]
     exact ha.mono (fun g hg => hg) (fun g hg => by simpa using hg)
+
+/-- the layout begins with the base header, and the writer's pre-processing leaves the type code alone -/
+def hdrCheck (lay : Layout) : Bool :=
+  lay.sigF == 0 && lay.hsF == 1 && lay.osF == 3 && lay.items.take 4 == hdr4 && !(lay.pre.map (·.1)).contains 4
+
+theorem hdrCheck_sound (lay : Layout) (h : hdrCheck lay = true) :
+    lay.sigF = 0 ∧ lay.hsF = 1 ∧ lay.osF = 3 ∧ (∃ R, lay.items = hdr4 ++ R) ∧ 4 ∉ lay.pre.map (·.1) := by
+  simp only [hdrCheck, Bool.and_eq_true, beq_iff_eq, Bool.not_eq_eq_eq_not, Bool.not_true, List.contains_eq_mem,
+    decide_eq_false_iff_not] at h
+  obtain ⟨⟨⟨⟨h1, h2⟩, h3⟩, h4⟩, h5⟩ := h
+  refine ⟨h1, h2, h3, ⟨lay.items.drop 4, ?_⟩, h5⟩
+  rw [← h4]; exact (List.take_append_drop 4 lay.items).symm
 
 /-- what the parse theorem needs of one object `o` of class `c` (exact layout `lay`) -/
 structure Parsable (cap : Nat) (c : Codec) (lay : Layout) (o : Obj) : Prop where
